@@ -349,6 +349,9 @@ def nilPairLat : Lat Nat :=
 /-- bitset of any width, union. -/
 def bitsLat : Lat Nat := { bot := 0, merge := fun a b => a ||| b, eq := fun a b => a == b }
 
+/-- bitset of width `w`, intersection (`Ident` = the full set `2^w - 1`). -/
+def andBitsLat (w : Nat) : Lat Nat := { bot := 2 ^ w - 1, merge := fun a b => a &&& b, eq := fun a b => a == b }
+
 /-- vectors of a fixed width `k` (the canonical form of a dense-map / map fact over `k`
 variables): pointwise merge. -/
 def vecLat (el : Lat Nat) (k : Nat) : Lat (List Nat) :=
